@@ -1,4 +1,6 @@
 import Litep2pVerif.Proofs.Notif.Inv2
+import Litep2pVerif.Proofs.Notif.Handle
+import Litep2pVerif.Proofs.Notif.Handshake
 import Litep2pVerif.Proofs.Node.Wiring
 /-!
 C11 — notification streams follow a strict open/close protocol towards the user.
@@ -530,6 +532,151 @@ example : ∃ s, ReachP s ∧ Busy s = true ∧ InClose s = false ∧ s.connecte
     s.slot = some (.validating .closed (.validating 2) .inbound) :=
   ⟨_, reachP_of (heldAcrossReconnect.take 11) (by decide), by decide, by decide, by decide, by decide⟩
 
+/-! ### The handle's batch commands (`open_substream_batch`, `try_open_substream_batch`, `close_substream_batch`)
+
+`Model/Notif/Handle.lean`: the handle splits the peers it is given into those that have a stream in its view
+(`toIgnore`) and the others (`toAdd`, a set), sends ONE command for the latter, and the protocol runs
+`on_open_substream` once per peer of the set, in the set's iteration order (`batchOpen`, any order). -/
+section Batch
+open NotifHandle
+
+/-- **Every peer of a batch gets its own, exactly-one `on_open_substream`, whatever the iteration order of the
+set**: a peer named in the call is either already in the handle's view — then it is in `toIgnore` (what
+`open_substream_batch` returns as `Err`; `try_open_substream_batch` does not report it) and its world is
+untouched — or its world makes exactly the step a single `open_substream` makes, with its own arguments; the
+worlds of all other peers are untouched. Duplicates in the call count once. -/
+theorem batch_open_answers_each (ms : Multi) (view peers : List Nat) (order : List (Nat × OpenArgs))
+    (hset : ∀ p, p ∈ order.map (·.1) ↔ p ∈ toAdd view peers) (hn : (order.map (·.1)).Nodup) :
+    (∀ p ∈ peers,
+      (p ∈ view ∧ p ∈ toIgnore view peers ∧ getP (batchOpen ms order) p = getP ms p) ∨
+      (p ∉ view ∧ ∃ a, (p, a) ∈ order ∧ getP (batchOpen ms order) p = step (getP ms p) a.act)) ∧
+    (∀ q, q ∉ peers → getP (batchOpen ms order) q = getP ms q) := by
+  refine ⟨fun p hp => ?_, fun q hq => ?_⟩
+  · by_cases hv : p ∈ view
+    · refine .inl ⟨hv, (mem_toIgnore view peers p).2 ⟨hp, hv⟩, batchOpen_other order ms p ?_⟩
+      rw [hset, mem_toAdd]
+      exact fun h => h.2 hv
+    · have hm : p ∈ order.map (·.1) := (hset p).2 ((mem_toAdd view peers p).2 ⟨hp, hv⟩)
+      obtain ⟨⟨p', a⟩, hm', rfl⟩ := List.mem_map.1 hm
+      exact .inr ⟨hv, a, hm', batchOpen_each order ms p' a hn hm'⟩
+  · refine batchOpen_other order ms q ?_
+    rw [hset, mem_toAdd]
+    exact fun h => hq h.1
+
+/-- … hence the answer ledger of `open_answered_once_partial` holds for every peer after a batch (each single
+step being one the restricted system allows). -/
+theorem batch_open_answered_once (ms : Multi) (order : List (Nat × OpenArgs)) (hn : (order.map (·.1)).Nodup)
+    (hr : ∀ p, ReachP (getP ms p))
+    (he : ∀ x ∈ order, enabled (getP ms x.1) x.2.act = true ∧ prompt (getP ms x.1) x.2.act = true) (p : Nat) :
+    lfold (getP (batchOpen ms order) p).log = some (decide (owed (getP (batchOpen ms order) p).slot = 1)) :=
+  (open_answered_once_partial (batchOpen_reachP order ms hn hr he p)).2.1
+
+/-- The batch results, exactly as the code computes them: `open_substream_batch` sends the command also when it
+returns `Err(to_ignore)`; the `try_` variant returns the peers it did NOT send a command for when the channel is
+full and says nothing about the ignored ones; nothing to close ⇒ no command. -/
+theorem batch_results (view peers : List Nat) :
+    openBatch view peers false = (some (.openSet (toAdd view peers)),
+      if (toIgnore view peers).isEmpty then .ok else .ignored (toIgnore view peers)) ∧
+    openBatch view peers true = (none, .blocked) ∧
+    tryOpenBatch view peers true = (none, .full (toAdd view peers)) ∧
+    tryOpenBatch view peers false = (some (.openSet (toAdd view peers)), .ok) ∧
+    ((toIgnore view peers).isEmpty = true → ∀ full, closeBatch view peers full = (none, .ok) ∧
+      tryCloseBatch view peers full = (none, .none)) := by
+  refine ⟨rfl, rfl, rfl, rfl, fun h full => ?_⟩
+  simp [closeBatch, tryCloseBatch, h]
+
+def twoPeers : Multi := [(1, finalActs [.connEst true 0] {}), (2, finalActs [.connEst true 0] {})]
+
+-- non-vacuity: peer 1 and 2 connected and idle, peer 2 already in the handle's view: `open_substream_batch([2,1,1,3])`
+example : toAdd [2] [2, 1, 1, 3] = [1, 3] ∧ toIgnore [2] [2, 1, 1, 3] = [2] ∧
+    (getP (batchOpen twoPeers [(3, ⟨false, false, false, 9⟩), (1, ⟨true, true, true, 7⟩)]) 1).slot = some (.outInit 7) ∧
+    (getP (batchOpen twoPeers [(3, ⟨false, false, false, 9⟩), (1, ⟨true, true, true, 7⟩)]) 3).log = [.request, .fail .dialfail] ∧
+    (getP (batchOpen twoPeers [(3, ⟨false, false, false, 9⟩), (1, ⟨true, true, true, 7⟩)]) 2).slot = some (.closed none) := by
+  decide
+
+example : openBatch [2] [2, 1, 1, 3] false = (some (.openSet [1, 3]), .ignored [2]) ∧
+    tryOpenBatch [2] [2, 1] true = (none, .full [1]) ∧ tryCloseBatch [2] [1, 3] false = (none, .none) ∧
+    closeBatch [2] [1, 2, 2] false = (some (.closeSet [2]), .ok) := by decide
+
+end Batch
+
+/-! ### The handshake service (`HandshakeService`, negotiation.rs) — `Model/Notif/Handshake.lean` -/
+section Handshake
+open NotifHs
+
+/-- **Handshake bytes over the limit are refused by both sides, never truncated.**
+Reading (either direction): the first unread frame of the substream is handed over unchanged if it is within
+the limit, and the entry fails — nothing is handed over, nothing is consumed — if it is above.
+Sending (accepted inbound substream or outbound substream): a local handshake above the limit (it is read when
+it is to be sent, so `set_handshake` counts up to that moment) makes the entry fail with nothing written.
+Whatever the service hands to the protocol, in any poll of any history and for any iteration order of its hash
+map, is within the limit. -/
+theorem handshake_bounded (maxSize : Nat) (hsLocal : List Nat) :
+    (∀ (f : List Nat) (rest : List (List Nat)) (e : Entry), e.state = .readHandshake → e.expired = false →
+      e.sub.reset = false → e.sub.toLocal = f :: rest →
+      (f.length > maxSize → entryPoll maxSize hsLocal e = (e, .error)) ∧
+      (f.length ≤ maxSize →
+        entryPoll maxSize hsLocal e = ({ e with sub := { e.sub with toLocal := rest } }, .ready f))) ∧
+    (∀ (e : Entry), (e.state = .sendHandshake ∨ e.state = .sinkReady) → e.expired = false →
+      hsLocal.length > maxSize →
+      (entryPoll maxSize hsLocal e).2 = .error ∧ (entryPoll maxSize hsLocal e).1.sub = e.sub) ∧
+    (∀ (s : Service) (order : List Key), ReadyBounded maxSize s →
+      ReadyBounded maxSize (poll maxSize hsLocal s order).1 ∧
+      ∀ p d hs, (poll maxSize hsLocal s order).2 = some (.negotiated p d hs) → hs.length ≤ maxSize) :=
+  ⟨fun f rest e h1 h2 h3 h4 => read_bounded maxSize hsLocal f rest e h1 h2 h3 h4,
+   fun e h1 h2 h3 => send_bounded maxSize hsLocal e h1 h2 h3,
+   fun s order h => poll_bounded maxSize hsLocal s order h⟩
+
+/-- A handed-over handshake is the empty marker of a sent handshake or exactly the first unread frame of that
+entry's substream; every frame an entry writes is the local handshake, within the limit. -/
+theorem handshake_exact (maxSize : Nat) (hsLocal : List Nat) (e : Entry) :
+    (∀ hs, (entryPoll maxSize hsLocal e).2 = .ready hs →
+      hs.length ≤ maxSize ∧ (hs = [] ∨ ∃ rest, e.sub.toLocal = hs :: rest)) ∧
+    (entryPoll maxSize hsLocal e).1.key = e.key :=
+  entryPoll_spec maxSize hsLocal e
+
+/-- The order inside one `poll_next`: a queued result goes out before any I/O (`pop_event`); an entry whose timer
+has fired fails before its substream is looked at; removing an entry (repaired defect) removes the results queued
+for it. -/
+theorem handshake_poll_order (maxSize : Nat) (hsLocal : List Nat) :
+    (∀ (s : Service) (order : List Key) (ev : Event), (popEvent s.entries s.ready).2 = some ev →
+      (poll maxSize hsLocal s order).2 = some ev ∧ subsAfter maxSize hsLocal s order = s.entries) ∧
+    (∀ e : Entry, e.expired = true → entryPoll maxSize hsLocal e = (e, .error)) ∧
+    (∀ (s : Service) (k : Key), ∀ r ∈ (s.remove k).ready, r.1 ≠ k) :=
+  ⟨fun s order ev h => ready_first maxSize hsLocal s order ev h,
+   fun e h => expired_fails maxSize hsLocal e h,
+   fun s k => remove_purges s k⟩
+
+/-- The defect that was repaired (`fix: notification handshake service drops queued results of removed
+substreams`): the peer's inbound handshake `[7]` is read and queued in the same poll in which its outbound
+substream fails; the protocol removes both entries; with the OLD removal the queued result survives (the empty
+service is not polled) and the peer's NEXT inbound substream — on which nothing has arrived yet — is handed out
+at once with the old handshake. With the repaired removal the new substream stays pending. -/
+def staleIn : Entry := { peer := 1, dir := .inbound, state := .readHandshake, sub := { toLocal := [[7]] } }
+def staleOut : Entry := { peer := 1, dir := .outbound, state := .readHandshake, sub := { reset := true } }
+def staleSvc : Service := (poll 64 [1] { entries := [staleIn, staleOut] } [(1, .inbound), (1, .outbound)]).1
+def freshIn : Entry := { peer := 1, dir := .inbound, state := .readHandshake }
+
+theorem handshake_stale_result_witness :
+    (poll 64 [1] { entries := [staleIn, staleOut] } [(1, .inbound), (1, .outbound)]).2 = some (.error 1 .outbound) ∧
+    (poll 64 [1] (((staleSvc.removeOld (1, .outbound)).removeOld (1, .inbound)).insert freshIn) [(1, .inbound)]).2
+      = some (.negotiated 1 .inbound [7]) ∧
+    (poll 64 [1] (((staleSvc.remove (1, .outbound)).remove (1, .inbound)).insert freshIn) [(1, .inbound)]).2 = none := by
+  decide
+
+-- non-vacuity
+example : entryPoll 4 [1, 2] { peer := 1, dir := .outbound, state := .sendHandshake, sub := { toLocal := [[9, 9, 9, 9, 9]] } }
+    = ({ peer := 1, dir := .outbound, state := .readHandshake, sub := { toLocal := [[9, 9, 9, 9, 9]], toRemote := [[1, 2]] } }, .error) := by
+  decide
+example : (entryPoll 4 [1, 2, 3, 4, 5] { peer := 1, dir := .inbound, state := .sendHandshake }).2 = .error ∧
+    (entryPoll 5 [1, 2, 3, 4, 5] { peer := 1, dir := .inbound, state := .sendHandshake }).2 = .ready [] := by decide
+example : ReadyBounded 4 { entries := [staleIn], ready := [((1, .inbound), [1, 2, 3, 4])] } := by
+  intro r hr; simp at hr; subst hr; decide
+example : (popEvent [staleIn] [((2, .inbound), [5]), ((1, .inbound), [6])]).2 = some (.negotiated 1 .inbound [6]) ∧
+    (entryPoll 4 [] { staleIn with expired := true }).2 = .error := by decide
+
+end Handshake
+
 #print axioms handler_total
 #print axioms bug_table
 #print axioms grammar_alternation_partial
@@ -545,6 +692,13 @@ example : ∃ s, ReachP s ∧ Busy s = true ∧ InClose s = false ∧ s.connecte
 #print axioms open_after_late_failure
 #print axioms inbound_after_accept_partial
 #print axioms notif_only_while_open
+#print axioms batch_open_answers_each
+#print axioms batch_open_answered_once
+#print axioms batch_results
+#print axioms handshake_bounded
+#print axioms handshake_exact
+#print axioms handshake_poll_order
+#print axioms handshake_stale_result_witness
 
 end Litep2pVerif.Notif
 
